@@ -38,6 +38,10 @@ def shrink_candidates(record):
             yield cfg_variant(num_data=[cfg["num_data"][i]])
     if cfg["num_data"] and min(cfg["num_data"]) > 10:
         yield cfg_variant(num_data=[10] if len(cfg["num_data"]) == 1 else sorted(set([10] + cfg["num_data"][1:])))
+    if cfg.get("parent_atol"):
+        c = copy.deepcopy(cfg)
+        c.pop("parent_atol")
+        yield _with(record, config=c)
     if cfg["noise"][0] != "none":
         yield cfg_variant(noise=["none", {}])
     if cfg.get("exec_sim_check") is not None and cfg["exec_sim_check"].get("consistency", True):
